@@ -104,7 +104,9 @@ func (p *programL) render() string {
 				b.WriteString("  set req.http.X-Bucket = ratecounter.rc_a.bucket.60s;\n")
 			}
 			if p.Penalty {
-				b.WriteString("  if (ratelimit.penaltybox_has(pb_a, req.http.X-Client)) {\n    set req.http.X-Boxed = \"1\";\n  } else {\n    set req.http.X-Boxed = \"0\";\n  }\n")
+				// membership is only evaluated when the request asks for it, so that
+				// histories exist in which an entry expires unobserved
+				b.WriteString("  if (req.http.X-Check) {\n    if (ratelimit.penaltybox_has(pb_a, req.http.X-Client)) {\n      set req.http.X-Boxed = \"1\";\n    } else {\n      set req.http.X-Boxed = \"0\";\n    }\n  }\n")
 				b.WriteString("  if (req.http.X-Punish && req.restarts == 0) {\n    ratelimit.penaltybox_add(pb_a, req.http.X-Client, 2m);\n  }\n")
 			}
 		case "hash":
@@ -485,7 +487,7 @@ func runC06(c *worker.Ctx) {
 		p = drawProgramL(c)
 	}
 	// history
-	nReq := 1 + c.T.Draw(3)
+	nReq := 1 + c.T.Draw(4)
 	if mode == 1 {
 		nReq = 2
 	}
@@ -503,10 +505,13 @@ func runC06(c *worker.Ctx) {
 			sp.Header.Set("X-Punish", "1")
 		}
 		sp.Header.Set("X-V", []string{"v1", "v2"}[c.T.Draw(2)])
+		if c.T.Bool(2, 3) {
+			sp.Header.Set("X-Check", "1")
+		}
 		if i > 0 {
 			// advance relative to the TTLs in play
 			T := p.TTL
-			adv := []time.Duration{0, T / 2, T - 10*time.Millisecond, T + 10*time.Millisecond, 10 * T, 30 * time.Second, 121 * time.Second, 365 * 24 * time.Hour}
+			adv := []time.Duration{0, T / 2, T - 10*time.Millisecond, T + 10*time.Millisecond, 10 * T, 30 * time.Second, 121 * time.Second, 365 * 24 * time.Hour, 3 * T / 5, 119 * time.Second, time.Second}
 			sp.Advance = adv[c.T.Draw(len(adv))]
 			if mode == 1 {
 				sp.Advance = time.Second
@@ -706,7 +711,7 @@ func runC06(c *worker.Ctx) {
 				res.Probe("ratecounter_carried_over")
 			}
 		}
-		if p.Penalty && contains(obs, "deliver") && !reported && r.Proc.Restarts == 0 {
+		if p.Penalty && r.Spec.Header.Get("X-Check") != "" && contains(obs, "deliver") && !reported && r.Proc.Restarts == 0 {
 			client := r.Spec.Header.Get("X-Client")
 			must, mustNot := false, true
 			for _, pa := range m.penalties {
@@ -762,7 +767,7 @@ func runC06(c *worker.Ctx) {
 			res.Probe("restart_limit_reached")
 		}
 		if c.Render {
-			rendered = append(rendered, map[string]any{"request": r.Spec.URL, "advance": r.Spec.Advance.String(), "lifecycle": obs, "model_path": v.path, "model": map[string]any{"exact": v.exact, "want_error": v.wantError, "open_ended": v.openEnded, "why": v.why}, "restarts": r.Proc.Restarts, "cached": r.Proc.Cached, "x-cache": r.Proc.ClientResponse.Headers["x-cache"], "error": clip(r.Proc.Error, 120), "origin_trips": len(r.Trips)})
+			rendered = append(rendered, map[string]any{"request": r.Spec.URL, "advance": r.Spec.Advance.String(), "lifecycle": obs, "model_path": v.path, "model": map[string]any{"exact": v.exact, "want_error": v.wantError, "open_ended": v.openEnded, "why": v.why}, "restarts": r.Proc.Restarts, "cached": r.Proc.Cached, "x-cache": r.Proc.ClientResponse.Headers["x-cache"], "error": clip(r.Proc.Error, 120), "origin_trips": len(r.Trips), "started_at": r.StartedAt.Format("15:04:05.000"), "client": r.Spec.Header.Get("X-Client"), "x-bucket": r.Proc.ClientResponse.Headers["x-bucket"], "x-boxed": r.Proc.ClientResponse.Headers["x-boxed"]})
 		}
 	}
 	res.Sig = strings.Join(sigParts, ";") + fmt.Sprintf("|f%v", faulty)
